@@ -18,7 +18,8 @@ CHECKS = {
     "C01": (
         "Bounded model checking: the real ContractionTree/Contractor/einsum/tensordot code is executed on numpy object arrays of z3 Reals for every "
         "skeleton, tree and option combination inside the bound; z3 proves out == dense einsum polynomial for ALL real entries (unsat) or returns entries "
-        "that are replayed on float arrays. Order callables return solver variables, so every admissible traversal order is a path.",
+        "that are replayed on float arrays. Order callables return solver variables, so every admissible traversal order is a path; one tree object also serves "
+        "successive option sets; exceptions of the code under test are violation candidates.",
         "Trusted: z3, numpy object-array semantics = float-array semantics (modulo rounding), dense reference evaluator (15 lines). Bounds: N<=3 (quick) / N<=4 "
         "(thorough) tensors, rank<=2/3, sizes in {1,2,3}; nothing is claimed outside them.",
         "symbolic tensors (z3 Real entries) through the real numpy path + z3 polynomial identity",
@@ -27,7 +28,7 @@ CHECKS = {
     "C03": (
         "Bounded model checking with UNBOUNDED symbolic index sizes: contract_stats/total_flops/total_write/max_size/peak_size/get_flops/get_size and "
         "remove_ind's incremental updates run on z3 Int proxies; z3 proves equality with the definitional cost terms on every path (paths = orderings of the "
-        "max and of the traversal keys). Part (b): the real Contractor/slice_arrays run on shape-only arrays with symbolic dims; produced shapes == reported.",
+        "max and of the traversal keys); every per-node cache is optionally warmed before the first / before each index removal. Part (b): the real Contractor/slice_arrays run on shape-only arrays with symbolic dims; produced shapes == reported.",
         "Trusted: z3 NIA, the definitional evaluator vlib/costs.py, numpy's shape rules re-stated in vlib/shapearr.py. A label is either concretely 1 (enumerated) "
         "or symbolic >= 2. Skeleton bound N<=3 (quick) / N<=4 (thorough).",
         "symbolic sizes (unbounded z3 Int) through the real cost code; z3 NIA identities per path",
